@@ -281,8 +281,12 @@ def check(ctx):
         ctx.decide(ok, "R-MUSTPASS/restart", st.qual, st.where(), f"`{w}` on every path past the guard",
                    f"Diameter.start does not execute `{w}` on every path past its guard: a restarted node reuses a closed "
                    f"association / state machine", key=w)
-    guard = [n for n in walk_no_nested(st.node) if isinstance(n, ast.If) and "!= CLOSED" in ast.unparse(n.test)
-             and any(isinstance(s, ast.Raise) for s in n.body)]
+    from ..astutil import guards as _guards
+    g_ = _guards(st.node)
+    closed = lambda conds, tv: any(ast.unparse(t).endswith("== CLOSED") and v is tv for t, v in conds)
+    builds = [n for n in walk_no_nested(st.node) if isinstance(n, ast.Assign) and ast.unparse(n) == wants[0]]
+    refuses = [n for n in walk_no_nested(st.node) if isinstance(n, ast.Raise) and closed(g_.get(id(n), []), False)]
+    guard = bool(builds) and all(closed(g_.get(id(n), []), True) for n in builds) and bool(refuses)
     ctx.decide(bool(guard), "R-DOM/restart", st.qual, st.where(), "start is refused unless the state is Closed",
                "Diameter.start no longer refuses to start a running node", key="guard", nontrivial=False)
     asr = ctx.need(funcs.get("bromelia.setup.DiameterAssociation.start"), "DiameterAssociation.start")
